@@ -125,12 +125,16 @@ def run(tier, seed, replay):
                 for v, ss in semrun.build_sources(c, rnd, 2 if tier == "quick" else 4):
                     for p, t in ss:
                         clean.append(t)
-        # character references in every documented form (decimal, hexadecimal with one to six digits, digits in either case, with
-        # leading zeros, named) and the structural directive combinations that ARE well formed
+        # character references in every documented form (decimal, hexadecimal, digits in either case, with
+        # leading zeros up to and beyond the longest code point, named) and the structural directive combinations that ARE well formed
         for cp in (9, 10, 13, 32, 34, 38, 39, 60, 62, 65, 123, 160, 0x2028, 0xFFFD, 0x1F600, 0x10FFFF):
-            for ref in ("&#%d;" % cp, "&#x%x;" % cp, "&#x%X;" % cp, "&#x0%x;" % cp, "&#%04d;" % cp):
+            for ref in ("&#%d;" % cp, "&#x%x;" % cp, "&#x%X;" % cp, "&#x0%x;" % cp, "&#%04d;" % cp, "&#x%08x;" % cp, "&#%09d;" % cp):
                 clean.append("a%sb" % ref)
                 clean.append('<v a="x%sy" class="%s">{{ c }}%s</v>' % (ref, ref, ref))
+        # childless elements written with an end tag and nothing but white space inside (a lone comment there is reported as a
+        # child by the compiler; the documented syntax does not say whether a comment is a child, so neither verdict is required)
+        for t in ('<slot> </slot>', '<include src="b">\n</include>', '<import src="b"></import>', '<template is="t">\t</template>'):
+            clean.append(t)
         for name in ("amp", "lt", "gt", "quot", "apos", "nbsp", "copy", "hellip", "NotEqualTilde"):
             clean.append('<v a="&%s;">&%s;{{ c }}</v>' % (name, name))
         clean = list(dict.fromkeys(clean))
